@@ -3,6 +3,7 @@ ACID transaction implementation for the Python Iceberg implementation
 """
 
 import copy
+import hashlib
 import json
 import os
 import threading
@@ -105,8 +106,7 @@ class Transaction:
             # while this transaction is open deletes it (it may well be older
             # than the grace period) and the commit then references a missing
             # file. append_data() has already registered its own file.
-            marker_name = data_file.file_path.rsplit("/", 1)[-1]
-            if f"{_INFLIGHT_PATH}/{marker_name}.inflight" not in self._inflight_markers:
+            if self._marker_path_for(data_file.file_path) not in self._inflight_markers:
                 self._register_inflight(data_file.file_path)
             if not self.file_manager.validate_file_exists(data_file.file_path):
                 raise FileNotFoundError(f"Data file does not exist: {data_file.file_path}")
@@ -307,6 +307,21 @@ class Transaction:
 
         return self
 
+    def _marker_path_for(self, file_path: str) -> str:
+        """Marker path for a file: named after the file's basename.
+
+        Files in a sub-directory (pre-built files queued with append_files, e.g.
+        data/region=eu/part-0.parquet and data/region=us/part-0.parquet) would
+        share one marker by basename alone, leaving all but one of them
+        unprotected; their marker name also carries a digest of the full path.
+        """
+        rel = file_path.lstrip("/")
+        parent, _, name = rel.rpartition("/")
+        if parent not in ("data", self.file_manager.manifests_path.strip("/")):
+            digest = hashlib.sha256(rel.encode("utf-8")).hexdigest()[:16]
+            name = f"{digest}-{name}"
+        return f"{_INFLIGHT_PATH}/{name}.inflight"
+
     def _register_inflight(self, file_path: str) -> None:
         """Write a GC-protection marker for a file this transaction is about to
         write but that no snapshot references yet.
@@ -317,8 +332,7 @@ class Transaction:
         metadata commit that makes it reachable. Marker write failures
         propagate - a file is never written unprotected (fail closed).
         """
-        marker_name = file_path.rsplit("/", 1)[-1]
-        marker_path = f"{_INFLIGHT_PATH}/{marker_name}.inflight"
+        marker_path = self._marker_path_for(file_path)
         marker_payload = json.dumps({"file_path": file_path.lstrip("/")}).encode("utf-8")
         self.file_manager.storage.write_file(marker_path, marker_payload)
         self._inflight_markers.append(marker_path)
